@@ -113,11 +113,22 @@ func evalRealX(c realCase) (vs []viol, engineErr string, outcome string) {
 	rec := newRecorder()
 	ready := rec.expect(readyLine)
 	parent, cancelParent := context.WithCancel(context.Background())
+	if c.Cancel == "ctx-cancel-cause" {
+		// ended with a recorded cause: ctx.Err() is context.Canceled, context.Cause(ctx) an application error of no common kind
+		var cancelCause context.CancelCauseFunc
+		parent, cancelCause = context.WithCancelCause(context.Background())
+		cancelParent = func() { cancelCause(errors.New("node is being drained")) }
+	}
 	defer cancelParent()
 	ctx := parent
 	if c.Cancel == "ctx-deadline" {
 		var cancelD context.CancelFunc
 		ctx, cancelD = context.WithTimeout(parent, time.Second)
+		defer cancelD()
+	}
+	if c.Cancel == "ctx-deadline-cause" {
+		var cancelD context.CancelFunc
+		ctx, cancelD = context.WithTimeoutCause(parent, time.Second, errors.New("budget of the job used up"))
 		defer cancelD()
 	}
 	args := script.Args(c.Ops)
@@ -162,7 +173,7 @@ func evalRealX(c realCase) (vs []viol, engineErr string, outcome string) {
 	guard := time.NewTimer(hangGuard)
 	defer guard.Stop()
 	switch c.Cancel {
-	case "ctx-cancel", "method-cancel", "method-stop":
+	case "ctx-cancel", "ctx-cancel-cause", "method-cancel", "method-stop":
 		// event-defined instant: the logger received the child's announcement; the child now sleeps for 100 s
 		select {
 		case <-ready:
@@ -172,7 +183,7 @@ func evalRealX(c realCase) (vs []viol, engineErr string, outcome string) {
 			return nil, "hang guard expired while waiting for the child's announcement", ""
 		}
 		switch c.Cancel {
-		case "ctx-cancel":
+		case "ctx-cancel", "ctx-cancel-cause":
 			cancelParent()
 		case "method-cancel":
 			proc.Cancel()
@@ -495,7 +506,7 @@ func realCases(thorough bool) ([]realCase, realBound) {
 	}
 
 	// cancel family: the child announces itself, then sleeps for 100 s
-	b.CancelKinds = []string{"ctx-cancel", "ctx-deadline", "method-cancel", "method-stop"}
+	b.CancelKinds = []string{"ctx-cancel", "ctx-deadline", "ctx-cancel-cause", "ctx-deadline-cause", "method-cancel", "method-stop"}
 	b.CancelRepeats = 3
 	if thorough {
 		b.CancelRepeats = 10
@@ -508,6 +519,8 @@ func realCases(thorough bool) ([]realCase, realBound) {
 			realCase{Family: "cancel", API: "new-execute", Exit: -1, Cancel: "ctx-cancel", Ops: ops},
 			realCase{Family: "cancel", API: "execute", Exit: -1, Cancel: "ctx-deadline", Ops: ops},
 			realCase{Family: "cancel", API: "output", Exit: -1, Cancel: "ctx-deadline", Ops: ops},
+			realCase{Family: "cancel", API: "new-execute", Exit: -1, Cancel: "ctx-cancel-cause", Ops: ops},
+			realCase{Family: "cancel", API: "execute", Exit: -1, Cancel: "ctx-deadline-cause", Ops: ops},
 			realCase{Family: "cancel", API: "new-execute", Exit: -1, Cancel: "method-cancel", Ops: ops},
 			realCase{Family: "cancel", API: "new-execute", Exit: -1, Cancel: "method-stop", Ops: ops})
 	}
